@@ -121,6 +121,10 @@ pub fn trail_reasons(d: &VerifDump) -> Vec<String> {
         if !first_of_level {
             match d.clauses.get(a.reason) {
                 None => out.push(format!("reason clause {} of {:?} does not exist", a.reason, a.var)),
+                // assignments made on behalf of the caller (install the root / a soft solvable, reject
+                // a soft solvable) carry the root clause as their reason and are not implications,
+                // at whatever level an implementation chooses to record them
+                Some(c) if matches!(c.kind, VerifKind::Root) => {}
                 Some(c) => {
                     if !c.literals.contains(&(a.var, a.value)) {
                         out.push(format!(
